@@ -2,7 +2,7 @@ SPECIFICATION BSpec
 CONSTANTS
   NAddr = 2
   MaxObj = 4
-  MaxOps = 4
+  MaxOps = 3
   MaxInflight = 1
   WithReplace = TRUE
   FixRemove = TRUE
